@@ -8,7 +8,7 @@ import re
 from .. import core, mm, mmgen2, sx
 
 THEOREMS = ['C17.print_parse', 'C17.parse_print_parse', 'C17.slice_floats_in_order', 'C17.slice_declares',
-            'C17.slice_labels_present', 'C17.slice_keeps_lemma']
+            'C17.slice_labels_present', 'C17.slice_keeps_lemma', 'C17.slice_keeps_disjointness']
 
 
 def hx(s):
